@@ -192,6 +192,8 @@ def seqref(rng, tier):
         dt = 10 ** (-4 + 4 * torch.rand(B, F, 1, generator=g)).to(dtype)
         dt = dt.clamp(max=0.05)
         gyro = torch.randn(B, F, 3, generator=g).to(dtype); acc = torch.randn(B, F, 3, generator=g).to(dtype)
+        if F % 4 == 1 and F <= 61:       # fast rotation (float64 runs): dt up to 1 s, several rad/s on every axis - per-frame increments beyond pi
+            dt = (0.3 + 0.7 * torch.rand(B, F, 1, generator=g)).to(dtype); gyro = gyro * 4
         R0 = pp.randn_SO3(B, 1, dtype=dtype); p0 = torch.randn(B, 1, 3, generator=g).to(dtype); v0 = torch.randn(B, 1, 3, generator=g).to(dtype)
         grav = rng.choice([9.81007, 0.0])
         try:
@@ -236,7 +238,7 @@ def seqref(rng, tier):
             if e2 > tol: fails.append(dict(clause='imu_chunking_invariant', signature=f'F={F},cuts={cut}', err=e2))
         if F in (1, 3, 7): samples.append(dict(F=F, B=B, err=err))
         if len(fails) > 6: break
-    return dict(evaluations=evals, distinct_nontrivial=evals, rule='one run per frame count F = 1..N (every value), random batch 1..3, dt in [1e-4, 0.05], random chunkings; distinct F',
+    return dict(evaluations=evals, distinct_nontrivial=evals, rule='one run per frame count F = 1..N (every value), random batch 1..3, dt in [1e-4, 0.05] (every fourth run: dt in [0.3, 1] with gyro rates of several rad/s), random chunkings; distinct F',
                 bound=f'F <= {N}', failures=fails[:6], samples=samples)
 
 
